@@ -32,6 +32,8 @@ type loopRun struct {
 	blocks   map[int]bool
 	ordinal  int
 	preGhost map[string]T
+	entry    *State
+	header   int
 }
 
 func (f *Frame) clone() *Frame {
@@ -59,6 +61,7 @@ type Obligation struct {
 	Trace  []string
 	Trivial bool
 	Script string
+	RawSMT string
 }
 
 type execError struct{ msg string }
@@ -230,7 +233,7 @@ func (x *Exec) execBlock(st *State, fr *Frame, b *ssa.BasicBlock, prev *ssa.Basi
 			x.fail("loop %d of %s (block %d, %s) has no invariant", ord, fr.fn, b.Index, x.posStr(firstPos(b)))
 		}
 		x.bindPhis(st, fr, b, prev)
-		lr := &loopRun{spec: ls, blocks: blocks, ordinal: ord}
+		lr := &loopRun{spec: ls, blocks: blocks, ordinal: ord, header: b.Index}
 		x.checkInvariant(st, fr, lr, "inv-entry")
 		// discovery pass with havocked phis
 		dst := st.clone()
@@ -238,13 +241,14 @@ func (x *Exec) execBlock(st *State, fr *Frame, b *ssa.BasicBlock, prev *ssa.Basi
 		x.havocPhis(dst, dfr, b)
 		dst.Written = map[int]bool{}
 		dst.GWrit = map[string]bool{}
-		dfr.loops[b.Index] = &loopRun{spec: ls, discover: true, blocks: blocks, ordinal: ord}
+		dfr.loops[b.Index] = &loopRun{spec: ls, discover: true, blocks: blocks, ordinal: ord, header: b.Index}
 		x.quiet++
 		func() {
 			defer func() { x.quiet-- }()
 			x.execInstrs(dst, dfr, b, 0, func(*State, Val) {})
 		}()
 		// havoc
+		lr.entry = st.clone()
 		lr.preGhost = map[string]T{}
 		for g, t := range st.Worlds[0] {
 			lr.preGhost[g] = t
@@ -712,7 +716,12 @@ func (x *Exec) loadFrom(st *State, addr Val, t types.Type, pos token.Pos) Val {
 	// element read out of an SMT array: reflect into executor value
 	if tv, ok := v.(T); ok && len(p.Path) > 0 && p.Path[len(p.Path)-1].Idx != nil {
 		if _, isT := st.Heap[p.Obj].(T); isT || x.pathThroughSMT(st, p) {
-			return x.e.reflect(st, tv, t)
+			r := x.e.reflect(st, tv, t)
+			if pv, isPtr := r.(*PtrV); isPtr && len(p.Path) == 1 {
+				// pointer element stored by value: remember where it came from so that writes go back
+				x.e.elemAlias[pv.Obj] = elemAliasT{Arr: p.Obj, Idx: *p.Path[0].Idx, Elem: t}
+			}
+			return r
 		}
 	}
 	return v
@@ -767,6 +776,16 @@ func (x *Exec) storeTo(st *State, addr Val, val Val, t types.Type, pos token.Pos
 		return
 	}
 	x.e.store(st, p, val)
+	if al, ok := x.e.elemAlias[p.Obj]; ok {
+		if arr, live := st.Heap[al.Arr].(T); live {
+			idx := al.Idx
+			elemTerm := x.e.reify(st, &PtrV{Nil: TFalse, Obj: p.Obj}, al.Elem)
+			st.Heap[al.Arr] = T{S: fmt.Sprintf("(store %s %s %s)", arr.S, idx.S, elemTerm.S), So: arr.So}
+			if st.Written != nil {
+				st.Written[al.Arr] = true
+			}
+		}
+	}
 }
 
 func (x *Exec) elemTypeOfBacking(p *PtrV) types.Type {
